@@ -76,11 +76,15 @@ impl ProcedureCache {
         // If the entry is `Vacant` then insert the Procedure. If the procedure with the same MAST
         // was inserted previously, make sure it doesn't conflict with the new procedure.
         match self.procedures.entry(proc.mast_root()) {
-            Entry::Occupied(cached_proc_entry) => {
-                let cached_proc = cached_proc_entry.get();
+            Entry::Occupied(mut cached_proc_entry) => {
+                let cached_proc = cached_proc_entry.get_mut();
                 if proc.num_locals() != cached_proc.num_locals() {
                     Err(AssemblyError::conflicting_num_locals(proc.name()))
                 } else {
+                    // procedures with the same MAST root may still reference different sets of
+                    // procedures (e.g., a root put on the stack via `procref` vs. the same root
+                    // pushed as literals); the cached procedure must cover all of them
+                    cached_proc.extend_callset(proc.callset());
                     if let Some(id) = id {
                         self.proc_id_map.insert(id, proc.mast_root());
                     }
